@@ -234,6 +234,14 @@ func (h *Hello) UnmarshalBinary(data []byte) error {
 			err = v.UnmarshalBinary(data[next:])
 			next += int(v.Len())
 			h.Elements = append(h.Elements, v)
+		default:
+			// Elements that are not supported are skipped; they are padded
+			// to a multiple of 8 bytes. An element that claims to be shorter
+			// than its own header would never let the loop advance.
+			if e.Length < e.Len() {
+				return errors.New("The hello element is shorter than a HelloElemHeader.")
+			}
+			next += (int(e.Length) + 7) / 8 * 8
 		}
 	}
 	return err
